@@ -329,7 +329,10 @@ type instrFacts struct {
 	SyncUses    []string `json:"sync_uses"`
 	ChanUses    int      `json:"chan_uses"`
 	SelectStmts int      `json:"select_statements"`
+	Unmodelled  []string `json:"unmodelled_blocking"`
 }
+
+var noPreemption bool
 
 var facts instrFacts
 var s3Enabled = true
@@ -343,7 +346,11 @@ func loadFacts() {
 	}
 	if len(facts.SyncUses) > 0 || facts.GoStmts > 0 || facts.SelectStmts > 0 {
 		s3Enabled = false
-		s3Note = fmt.Sprintf("S3 switched off: the instrumented package uses synchronisation primitives (%v, %d go statements, %d select) which the package-state rule does not model; S1/S2/S4/S5 remain armed", facts.SyncUses, facts.GoStmts, facts.SelectStmts)
+		s3Note = fmt.Sprintf("S3 switched off: the instrumented package uses synchronisation primitives (%v, %d go statements, %d select) which the package-state rule does not model; S1/S2/S4/S5 remain armed; Mutex/RWMutex Lock/RLock and Once.Do are rewritten to cooperative versions", facts.SyncUses, facts.GoStmts, facts.SelectStmts)
+	}
+	if len(facts.Unmodelled) > 0 {
+		noPreemption = true
+		s3Note += fmt.Sprintf("; PREEMPTION SWITCHED OFF: the package blocks in ways the scheduler does not model (%v), tasks run to completion one after another", facts.Unmodelled)
 	}
 }
 
@@ -500,6 +507,7 @@ func runC17(c *Ctx) *Violation {
 	sp := drawSchedPolicy(t, ntasks, total+1)
 	c.Put("schedule_policy", sp.String())
 	s := newSched(c, sp)
+	s.noPreempt = noPreemption
 	conc := make([][]string, ntasks)
 	for i := range progs {
 		i := i
